@@ -149,7 +149,7 @@ var globalAssumptions = []string{
 	"go/ssa (x/tools v0.29.0) and the gc compiler agree on the semantics of the functions under contract",
 	"z3 5.1.0, z3 4.8.12 and cvc5 1.0.3 are sound; an obligation counts as discharged only on `unsat`",
 	"pointer and interface parameters (including receivers) of a function under contract are non-nil unless its contract says nullable; this is checked at every call that goes through a contract; distinct pointer-to-scalar/slice parameters do not alias; callees do not retain pointers to caller locals",
-	"slices and strings hold fewer than 2^56 elements; int is 64 bits",
+	"slices and strings hold at most 2^48 elements (the Go runtime's maximum allocation); int is 64 bits",
 	"single-owner slices: a backing array that has been shared as a value is not written afterwards (violations are reported as out-of-subset, never passed)",
 	"error values are abstracted to (nil-ness, errors.Is class, wrapped bit); message text, perm bits, log output are dropped",
 	"no concurrent mutation during a call",
@@ -175,6 +175,7 @@ func cmdCheck(args []string) int {
 	evPath := filepath.Join(verifRoot, "evidence", id+".json")
 	os.MkdirAll(filepath.Dir(evPath), 0o755)
 	os.Remove(evPath)
+	os.RemoveAll(filepath.Join(verifRoot, "replays", id))
 
 	scope, err := loadScope(id)
 	if err != nil {
@@ -376,6 +377,9 @@ func cmdCheck(args []string) int {
 	}
 	fmt.Printf("property %s: %d obligations, %d discharged, %d known findings, %d violations, %d smoke checks, %.1fs\n", id, total, discharged, len(known), len(violations), smokeN, time.Since(t0).Seconds())
 	if broken {
+		for _, v := range violations {
+			fmt.Println("(broken run) " + v)
+		}
 		fmt.Println("BROKEN: vacuity or solver error (see above)")
 		return 2
 	}
